@@ -201,20 +201,34 @@ impl<'de, 'a> de::Deserializer<'de> for &'a mut Tape {
             _ => Err(E),
         }
     }
+    /// an unknown field is an error in this format (and keeps serde's recursive IgnoredAny visitor
+    /// out of the model)
+    fn deserialize_ignored_any<V: Visitor<'de>>(self, _v: V) -> Result<V::Value, E> {
+        Err(E)
+    }
     serde::forward_to_deserialize_any! {
         bool i8 i16 i32 i64 i128 u8 u16 u32 u64 u128 f32 f64 char str string bytes byte_buf option unit
-        unit_struct newtype_struct seq tuple tuple_struct map struct enum identifier ignored_any
+        unit_struct newtype_struct seq tuple tuple_struct map struct enum identifier
     }
 }
 
 pub fn to_tape<T: Serialize>(x: &T) -> Tape {
     let mut t = Tape::new();
-    x.serialize(&mut t).expect("serializes");
+    // no `expect`: its failure path drags core::fmt into the model
+    if x.serialize(&mut t).is_err() {
+        t.len = usize::MAX;
+    }
     t
 }
 pub fn from_tape<T: for<'de> Deserialize<'de>>(t: &mut Tape) -> T {
     t.pos = 0;
-    T::deserialize(&mut *t).expect("deserializes")
+    match T::deserialize(&mut *t) {
+        Ok(v) => v,
+        Err(_) => {
+            assert!(false, "deserialization failed");
+            loop {}
+        }
+    }
 }
 
 fn key_is(r: Rec, k: &str) -> bool {
@@ -257,7 +271,7 @@ pub fn c16_roundtrip_dual32_dual2() {
 
 #[cfg_attr(kani, kani::proof)]
 #[cfg_attr(kani, kani::unwind(16))]
-pub fn c16_roundtrip_dual3_hyperdual() {
+pub fn c16_roundtrip_dual3() {
     let d = Dual3_64::new(any_f64(), any_f64(), any_f64(), any_f64());
     let mut t = to_tape(&d);
     assert!(t.len == 10 && matches!(t.recs[0], Rec::Begin("Dual3", 4)));
@@ -265,11 +279,29 @@ pub fn c16_roundtrip_dual3_hyperdual() {
     assert!(t.recs[8] == Rec::F64(d.v3.to_bits()) && t.recs[6] == Rec::F64(d.v2.to_bits()));
     let e: Dual3_64 = from_tape(&mut t);
     assert!(same64(e.re, d.re) && same64(e.v1, d.v1) && same64(e.v2, d.v2) && same64(e.v3, d.v3));
+    cover!(true);
+}
+
+/// layout only (no deserialization): each part under its own field name, in order, nothing else
+#[cfg_attr(kani, kani::proof)]
+#[cfg_attr(kani, kani::unwind(16))]
+pub fn c16_layout_hyperdual() {
+    let h = HyperDual64::new(any_f64(), any_f64(), any_f64(), any_f64());
+    let t = to_tape(&h);
+    assert!(t.len == 10);
+    assert!(matches!(t.recs[0], Rec::Begin("HyperDual", 4)));
+    assert!(key_is(t.recs[1], "re") && key_is(t.recs[3], "eps1") && key_is(t.recs[5], "eps2") && key_is(t.recs[7], "eps1eps2"));
+    assert!(t.recs[2] == Rec::F64(h.re.to_bits()) && t.recs[4] == Rec::F64(h.eps1.to_bits()));
+    assert!(t.recs[6] == Rec::F64(h.eps2.to_bits()) && t.recs[8] == Rec::F64(h.eps1eps2.to_bits()));
+    assert!(t.recs[9] == Rec::End);
+    cover!(h.eps1eps2 == 0.0);
+}
+
+#[cfg_attr(kani, kani::proof)]
+#[cfg_attr(kani, kani::unwind(16))]
+pub fn c16_roundtrip_hyperdual() {
     let h = HyperDual64::new(any_f64(), any_f64(), any_f64(), any_f64());
     let mut t = to_tape(&h);
-    assert!(t.len == 10 && matches!(t.recs[0], Rec::Begin("HyperDual", 4)));
-    assert!(key_is(t.recs[1], "re") && key_is(t.recs[3], "eps1") && key_is(t.recs[5], "eps2") && key_is(t.recs[7], "eps1eps2"));
-    assert!(t.recs[4] == Rec::F64(h.eps1.to_bits()) && t.recs[6] == Rec::F64(h.eps2.to_bits()) && t.recs[8] == Rec::F64(h.eps1eps2.to_bits()));
     let g: HyperDual64 = from_tape(&mut t);
     assert!(same64(g.re, h.re) && same64(g.eps1, h.eps1) && same64(g.eps2, h.eps2) && same64(g.eps1eps2, h.eps1eps2));
     cover!(true);
@@ -320,10 +352,61 @@ pub fn c16_roundtrip_nested() {
     cover!(true);
 }
 
+/// layout-only twins (cheap even when a change makes the record count data dependent)
+#[cfg_attr(kani, kani::proof)]
+#[cfg_attr(kani, kani::unwind(16))]
+pub fn c16_layout_dual_dual2_dual3() {
+    let x = Dual64::new(any_f64(), any_f64());
+    let t = to_tape(&x);
+    assert!(t.len == 6);
+    assert!(key_is(t.recs[1], "re") && key_is(t.recs[3], "eps") && t.recs[5] == Rec::End);
+    assert!(t.recs[2] == Rec::F64(x.re.to_bits()) && t.recs[4] == Rec::F64(x.eps.to_bits()));
+    let d = Dual2_64::new(any_f64(), any_f64(), any_f64());
+    let t = to_tape(&d);
+    assert!(t.len == 8);
+    assert!(key_is(t.recs[1], "re") && key_is(t.recs[3], "v1") && key_is(t.recs[5], "v2") && t.recs[7] == Rec::End);
+    assert!(t.recs[2] == Rec::F64(d.re.to_bits()) && t.recs[4] == Rec::F64(d.v1.to_bits()) && t.recs[6] == Rec::F64(d.v2.to_bits()));
+    let e = Dual3_64::new(any_f64(), any_f64(), any_f64(), any_f64());
+    let t = to_tape(&e);
+    assert!(t.len == 10);
+    assert!(key_is(t.recs[1], "re") && key_is(t.recs[3], "v1") && key_is(t.recs[5], "v2") && key_is(t.recs[7], "v3"));
+    assert!(t.recs[2] == Rec::F64(e.re.to_bits()) && t.recs[4] == Rec::F64(e.v1.to_bits()));
+    assert!(t.recs[6] == Rec::F64(e.v2.to_bits()) && t.recs[8] == Rec::F64(e.v3.to_bits()) && t.recs[9] == Rec::End);
+    cover!(x.eps == 0.0);
+}
+
+#[cfg_attr(kani, kani::proof)]
+#[cfg_attr(kani, kani::unwind(16))]
+pub fn c16_layout_hyperhyperdual_f32() {
+    let h = HyperHyperDual64::new(
+        any_f64(), any_f64(), any_f64(), any_f64(), any_f64(), any_f64(), any_f64(), any_f64(),
+    );
+    let t = to_tape(&h);
+    assert!(t.len == 18);
+    let names = ["re", "eps1", "eps2", "eps3", "eps1eps2", "eps1eps3", "eps2eps3", "eps1eps2eps3"];
+    let vals = [h.re, h.eps1, h.eps2, h.eps3, h.eps1eps2, h.eps1eps3, h.eps2eps3, h.eps1eps2eps3];
+    let mut i = 0;
+    while i < 8 {
+        assert!(key_is(t.recs[1 + 2 * i], names[i]));
+        assert!(t.recs[2 + 2 * i] == Rec::F64(vals[i].to_bits()));
+        i += 1;
+    }
+    assert!(t.recs[17] == Rec::End);
+    let g = HyperDual32::new(any_f32(), any_f32(), any_f32(), any_f32());
+    let t = to_tape(&g);
+    assert!(t.len == 10);
+    assert!(t.recs[2] == Rec::F32(g.re.to_bits()) && t.recs[8] == Rec::F32(g.eps1eps2.to_bits()));
+    cover!(true);
+}
+
 pub const LIST: &[(&str, fn())] = &[
+    ("c16_layout_dual_dual2_dual3", c16_layout_dual_dual2_dual3),
+    ("c16_layout_hyperhyperdual_f32", c16_layout_hyperhyperdual_f32),
     ("c16_roundtrip_dual64", c16_roundtrip_dual64),
     ("c16_roundtrip_dual32_dual2", c16_roundtrip_dual32_dual2),
-    ("c16_roundtrip_dual3_hyperdual", c16_roundtrip_dual3_hyperdual),
+    ("c16_roundtrip_dual3", c16_roundtrip_dual3),
+    ("c16_layout_hyperdual", c16_layout_hyperdual),
+    ("c16_roundtrip_hyperdual", c16_roundtrip_hyperdual),
     ("c16_roundtrip_hyperhyperdual", c16_roundtrip_hyperhyperdual),
     ("c16_roundtrip_nested", c16_roundtrip_nested),
 ];
